@@ -27,7 +27,7 @@ func init() {
 		"what the client receives after responses were already sent (protocol carriers, see C02), runtime behaviour of recover across goroutines, RST mapping of the abort sentinel.")
 
 	prop("C07", "Whatever a client sends, the handler rejects it safely",
-		[]string{"serve-guards", "close-once-after-accept", "receive-before-user", "no-explicit-panic"},
+		[]string{"serve-guards", "close-once-after-accept", "receive-before-user", "timeout-handler", "no-explicit-panic"},
 		"(1) ServeHTTP reaches user code at one call site, outside loops, only under: POST, not (bidi over HTTP/1.x), protocol selected by exact Content-Type lookup, successful NewConn, valid timeout; rejected requests get 405+Allow / 505 / 415+Accept-Post and never reach user code; "+
 			"(2) once a protocol is selected every exit passes exactly one Close of the conn, and each handler NewConn fails only after Close(non-nil error), so the answer is always formatted by the selected protocol; "+
 			"(3) a message holder passed to Receive is handed to user code only on paths where Receive returned nil; (4) no explicit panic outside the recover interceptor's re-panic.",
@@ -53,4 +53,16 @@ func init() {
 			"(3) ResponseHeader()/ResponseTrailer() return the map fields that get populated; (4) every protocol header constant a side reads is written by its peer under the same unary/streaming configuration; "+
 			"(5) direct header map indexes use canonical constants and JSON-decoded metadata is re-keyed canonically; (6) the binary-header helpers use one base64 alphabet, unpadded on encode, padding-tolerant on decode.",
 		"that net/http delivers what was written (value sanitising, HTTP/2 trailers), all multimaps x kinds x outcomes, the base64 round trip itself (stdlib).")
+
+	prop("C08", "Compression is negotiated so both sides can decode, and is lossless",
+		[]string{"negotiate", "min-bytes-gate", "compression-roles", "client-encoding-validated", "pool-hygiene", "preference-order", "header-pairing", "limit-wiring"},
+		"(1) negotiateCompression adopts the client's names only under Contains, rejects an unsupported request compression with unimplemented + the supported list, and adopts at most one (the first) mutually supported name of the client's list; (2) both size gates compress exactly when a pool exists and size >= compressMinBytes; "+
+			"(3) accept-list, send-compression and response-compression headers agree between client and handler in every unary/streaming configuration, and the negotiated values select the writer/reader pools; (4) clients install a decompressor only for an empty/identity/known encoding; "+
+			"(5) pooled (de)compressors are only touched by the get/put helpers, are Reset on get and on put, never pooled after a failed Close, and every get is paired with exactly one put; (6) the advertised order is last-registered-first and an unregistered send compression fails client construction.",
+		"losslessness of gzip or custom algorithms, that the peer really can decode, interleavings on the pools beyond the reset discipline.")
+	prop("C09", "Read limits are enforced exactly, before a message reaches user code",
+		[]string{"bounded-read", "limit-wiring"},
+		"(1) the envelope reader grows its buffer and copies the payload only when not (N>0 and declared size > N) - size N accepted, N+1 rejected with a non-nil error - so a lying length prefix cannot make it allocate; (2) the unary reader and the decompressor fill their buffer through io.LimitReader(src, N+1) whenever N>0 and reject count > N before decoding (N accepted, N+1 rejected), so a decompression bomb buffers at most N+1 bytes; "+
+			"(3) every reader literal built by a protocol NewConn takes readMaxBytes from the params, the params from the config, the config from the option, and every Decompress call passes its own reader's limit.",
+		"actual allocation volume, behaviour per stream position (the same code runs for every position), the error-body reader used for non-200 unary responses (not a message in the property's sense).")
 }
